@@ -89,7 +89,9 @@ impl Prop for C06 {
         let n_dcs = 1 + src.below(3);
         // one cluster in forty is larger than the 10 requests the distributor and the poller keep in flight at once
         let n = if src.chance(1, 40) { 11 + src.below(3) } else { 1 + src.below(6) };
-        let style = src.below(3);
+        // four naming styles; the fourth mixes nodes without a configured data centre (the default name) with labelled ones
+        // (since the seeded change `C06n`)
+        let style = src.below(4);
         let nodes: Vec<(u8, String)> = (0..n).map(|i| (i as u8 + 1, crate::c15::dc_name(style, src.below(n_dcs)))).collect();
         let issuer = src.below(n);
         let level = src.below(LEVELS.len());
@@ -350,13 +352,25 @@ async fn run(case: &Case, net: e3::Net) -> Outcome {
                     )
                 })
                 .count();
+            // A replica that answers only after the 2 s the error names as its timeout (behaviour TooSlow: 2.6 s) has
+            // acknowledged by the time the harness looks, but an implementation that gives up on a replica after those
+            // 2 s reports the call without it: the statement ("stating how many did") allows both, so its acknowledgement
+            // may or may not be counted. (Found by the benign change eccore-5, which enforces the documented timeout:
+            // my oracle demanded the late answer to be counted.)
+            let late = asked
+                .iter()
+                .filter(|a| {
+                    let idx = nodes.iter().position(|n| n.addr == **a).unwrap();
+                    matches!(case.behaviour.get(&idx), Some(Refusal::TooSlow))
+                })
+                .count();
             ensure!(
-                *responses == acks && *req == asked.len(),
+                *responses <= acks && *responses + late >= acks && *req == asked.len(),
                 "wrong-response-count",
-                "error reports {responses} of {req} responses; {acks} acknowledgements came back from {} replicas asked",
+                "error reports {responses} of {req} responses; {acks} acknowledgements came back from {} replicas asked ({late} of them later than 2 s)",
                 asked.len()
             );
-            ensure!(acks < asked.len(), "spurious-consistency-failure", "all {acks} asked replicas acknowledged, yet the call failed");
+            ensure!(*responses < asked.len(), "spurious-consistency-failure", "all {acks} asked replicas acknowledged, yet the call failed");
             ensure!(written.len() == case.keys.len(), "failed-without-local-write", "consistency error but the issuer wrote {:?}", written);
             for (id, t) in &written {
                 ensure!(holds(issuer, &ks, *id, *t), "failed-without-local-write", "issuer does not hold id {id} at {:?}", t);
@@ -510,7 +524,7 @@ pub mod membership {
         fn gen(&self, src: &mut Src) -> Case {
             let n_dcs = 1 + src.below(2);
             let n = 1 + src.below(4);
-            let style = src.below(3);
+            let style = src.below(4);
             let nodes: Vec<(u8, String)> = (0..n).map(|i| (i as u8 + 1, crate::c15::dc_name(style, src.below(n_dcs)))).collect();
             let issuer = src.below(n);
             let level = src.below(LEVELS.len());
